@@ -39,7 +39,7 @@ func (f *traceNode) CallContract(_ context.Context, msg ethereum.CallMsg, _ *big
 	if msg.To == nil || *msg.To != l2BridgeAddr || string(msg.Data) != string(f.gasTokenSelector) {
 		return nil, fmt.Errorf("world trace node: unexpected eth_call %x", msg.Data)
 	}
-	return make([]byte, 32), nil // the chain's gas token is ether
+	return common.LeftPadBytes(GasToken.Bytes(), 32), nil // abi.encode(address): the chain has a custom gas token
 }
 
 func (f *traceNode) Call(result any, method string, args ...any) error {
